@@ -99,3 +99,9 @@
 ; slice of a concatenation that starts after the first part
 (assert (forall ((a Bytes) (b Bytes) (i Int) (j Int)) (! (=> (and (<= (blen a) i) (<= i j) (<= j (+ (blen a) (blen b)))) (= (bsub (bcat a b) i j) (bsub b (- i (blen a)) (- j (blen a))))) :pattern ((bsub (bcat a b) i j)))))
 (assert (forall ((s Bytes)) (! (= (bsub s 0 0) bempty) :pattern ((bsub s 0 0)))))
+; ---- strings.Split(s, sep), sep non-empty: head, then the split of the tail
+(assert (forall ((s Bytes) (p Bytes)) (! (>= (slen (splitAll s p)) 1) :pattern ((splitAll s p)))))
+(assert (forall ((s Bytes) (p Bytes)) (! (=> (> (blen p) 0) (= (contains s p) (>= (slen (splitAll s p)) 2))) :pattern ((splitAll s p)))))
+(assert (forall ((s Bytes) (p Bytes)) (! (=> (not (contains s p)) (and (= (slen (splitAll s p)) 1) (= (select (selems (splitAll s p)) 0) s))) :pattern ((splitAll s p)))))
+(assert (forall ((s Bytes) (p Bytes)) (! (=> (and (contains s p) (> (blen p) 0)) (and (= (select (selems (splitAll s p)) 0) (splitHead s p)) (= (slen (splitAll s p)) (+ 1 (slen (splitAll (splitTail s p) p)))))) :pattern ((splitAll s p)))))
+(assert (forall ((s Bytes) (p Bytes) (i Int)) (! (=> (and (contains s p) (> (blen p) 0) (<= 1 i) (< i (slen (splitAll s p)))) (= (select (selems (splitAll s p)) i) (select (selems (splitAll (splitTail s p) p)) (- i 1)))) :pattern ((select (selems (splitAll s p)) i)))))
